@@ -87,6 +87,10 @@ class Ncp:
                 self.boot_gen += 1
                 self.defer(self.boot_delay, lambda g=self.boot_gen: self._booted(g))
                 return
+            if getattr(self, "drop_rx_after_reset", 0):
+                # the line loses the next frames the host sends after the handshake (its retransmissions recover them)
+                self.drop_next_rx = self.drop_rx_after_reset
+                self.drop_rx_after_reset = 0
             k = ashlib.spec_wire("K", code=self.reset_code)
             # (a line that duplicates a frame delivers both copies back to back: one read carries two RSTACKs)
             self._send(k + k if getattr(self, "dup_rstack", False) else k)
